@@ -22,6 +22,7 @@ def dispatch (toks : List String) : String :=
   | "C12" :: rest => Poor.Drv.Static.handle rest
   | "C10" :: rest => Poor.Drv.Query.handle rest
   | "C11" :: rest => Poor.Drv.Digest.handle rest
+  | "C17" :: rest => Poor.Drv.Sched.handle rest
   | _ => "bad-op"
 
 partial def loop (h : IO.FS.Stream) (out : IO.FS.Stream) : IO Unit := do
